@@ -89,7 +89,6 @@ pub fn run(report: &mut Report, replay: Option<&Value>) {
         return;
     }
     super::replay_corpus(report, &|r, v| replay_e1(r, v));
-    let hooks = Hooks { classify: &classify, classify_compile: &|_, _| None, compile_failure_is_violation: false };
     let (n_programs, rounds) = if report.thorough() { (250, 8) } else { (200, 1) };
     let mut stats = GenStats::default();
     let mut cfg = CaseCfg::default();
@@ -100,6 +99,9 @@ pub fn run(report: &mut Report, replay: Option<&Value>) {
     cfg.gen.max_depth = 2;
     cfg.allow_extern_enums = false;
     cfg.option_percent = 45;
+    let cfg_r = cfg.clone();
+    let rebuild = |tp: &[u8]| build_item(tp, &cfg_r, &mut GenStats::default());
+    let hooks = Hooks { classify: &classify, classify_compile: &|_, _| None, compile_failure_is_violation: false, rebuild: Some(&rebuild) };
     for round in 0..rounds {
         let tapes = sample_tapes(report.seed, 0xC10 + round as u64 * 7919, n_programs, 3072);
         let items: Vec<Item> = tapes.iter().filter_map(|tp| build_item(tp, &cfg, &mut stats)).collect();
